@@ -449,6 +449,9 @@ func c44ErrClass(err error) string {
 	case strings.Contains(m, "should have been authorized by"):
 		return "wrong-authorizer"
 	}
+	if os.Getenv("VERIF_C44_DEBUG") != "" {
+		fmt.Printf("OTHER %s\n", err.Error())
+	}
 	return "other"
 }
 
@@ -902,6 +905,12 @@ func c44RunHistory(c *kit.Ctx, i int, scratch string) {
 	var ops []c44Op
 	var fnd *c44Finding
 	labels := map[string]bool{}
+	var dbg []string
+	defer func() {
+		if len(dbg) > 0 {
+			fmt.Println(strings.Join(dbg, "\n"))
+		}
+	}()
 	maxFeePerByte := uint64(0)
 	panicked := c.Guard("pool", map[string]any{"case": i, "cfg": fmt.Sprintf("%+v", cfg)}, func() {
 		for s := 0; s < nsteps && fnd == nil; s++ {
@@ -938,6 +947,13 @@ func c44RunHistory(c *kit.Ctx, i int, scratch string) {
 				}
 				P := w.pool.PendingTxGroups()
 				n := c44Count(P)
+				if os.Getenv("VERIF_C44_DEBUG") != "" {
+					ids := ""
+					for _, g := range P {
+						ids += g[0].ID().String()[:4] + ","
+					}
+					dbg = append(dbg, fmt.Sprintf("STATE %d.%d err=%v rnd=%d P=%s", i, len(ops)-1, w.lastRememberErr, w.l.Latest(), ids))
+				}
 				if o.Kind == "submit" {
 					acc := "rej:" + "none"
 					if w.lastRememberErr == nil {
@@ -981,10 +997,12 @@ func c44RunHistory(c *kit.Ctx, i int, scratch string) {
 		c.Sample(map[string]any{"case": i, "config": fmt.Sprintf("%+v", cfg), "steps": len(ops), "final_round": uint64(w.l.Latest()),
 			"final_pending": c44Count(w.pool.PendingTxGroups()), "op_outcomes_seen": len(ls)})
 	}
-	if os.Getenv("VERIF_C44_DEBUG") == fmt.Sprint(i) {
+	if d := os.Getenv("VERIF_C44_DEBUG"); d == fmt.Sprint(i) || d == "all" {
+		var sb strings.Builder
 		for k, o := range ops {
-			fmt.Printf("OP %d %s\n", k, o)
+			fmt.Fprintf(&sb, "OP %d.%d %s\n", i, k, o)
 		}
+		fmt.Print(sb.String())
 	}
 	c44TraceMu.Lock()
 	c44Trace[i] = kit.Fingerprint(c44Strs(ops), kit.FPOptions{})
